@@ -14,6 +14,11 @@ def idxDel (tgt : Bytes → Bool) (v id : Bytes) (m : Map (List Bytes)) : Except
     (if tgt v then .ok (m.insert v (setDel id ((m.lookup v).getD []))) else .error .notFound)
   else .ok m
 
+/-- `fkIndex.ProcessBeforeDelete` on the back-reference map alone (since 001d2d2: a target that is gone is
+    skipped, so this step never fails) -/
+def idxDelB (tgt : Bytes → Bool) (v id : Bytes) (m : Map (List Bytes)) : Map (List Bytes) :=
+  if v ≠ [] then (if tgt v then m.insert v (setDel id ((m.lookup v).getD [])) else m) else m
+
 def idxAdd (nullable : Bool) (tgt : Bytes → Bool) (new id : Bytes) (m1 : Map (List Bytes)) :
     Except Err (Map (List Bytes)) :=
   if new ≠ [] then
@@ -52,10 +57,49 @@ theorem idxDel_spec {f : EntA → FV} {P : Bytes → Prop} {as : Map EntA} {m m'
     subst hv0'
     exact ⟨hS.del_null hv, hK⟩
 
+theorem idxDelB_spec {f : EntA → FV} {P : Bytes → Prop} {as : Map EntA} {m : Map (List Bytes)}
+    {tgt : Bytes → Bool} {v id : Bytes}
+    (hS : SetExact f P as m) (hv : ∀ e, as.lookup id = some e → evalVal (f e) = v)
+    (hK : ∀ t, m.lookup t ≠ none → tgt t = true) :
+    SetExact f (plus P id) as (idxDelB tgt v id m) ∧ (∀ t, (idxDelB tgt v id m).lookup t ≠ none → tgt t = true) := by
+  unfold idxDelB
+  split
+  · split
+    · next htv =>
+      refine ⟨hS.del hv, ?_⟩
+      intro t ht
+      rw [Map.lookup_insert] at ht
+      by_cases h : t = v
+      · subst h; exact htv
+      · simp only [h, if_false] at ht; exact hK t ht
+    · next hv0 htv =>
+      -- the target is gone: no set lists `id` (a listed key has an existing target)
+      refine ⟨?_, hK⟩
+      intro t k
+      rw [hS t k]
+      simp only [plus]
+      constructor
+      · rintro ⟨e, he, h1, h2, h3⟩
+        refine ⟨e, he, h1, h2, fun hc => hc.elim h3 ?_⟩
+        intro hk; subst hk
+        have htv' : t = v := h1.symm.trans (hv e he)
+        have hm : k ∈ (m.lookup t).getD [] := (hS t k).2 ⟨e, he, h1, h2, h3⟩
+        have hne : m.lookup t ≠ none := by
+          intro hn; rw [hn] at hm; cases hm
+        exact htv (htv' ▸ hK t hne)
+      · rintro ⟨e, he, h1, h2, h3⟩
+        exact ⟨e, he, h1, h2, fun hc => h3 (Or.inl hc)⟩
+  · next hv0 =>
+    have hv0' : v = [] := by simpa using hv0
+    subst hv0'
+    exact ⟨hS.del_null hv, hK⟩
+
 /-- how the written entity relates to the table before the write -/
 inductive WriteKind (f : EntA → FV) (as0 : Map EntA) (id : Bytes) (ic : Bool) (old : Bytes) : Prop
   | create : ic = true → as0.lookup id = none → old = [] → WriteKind f as0 id ic old
-  | update (cur : EntA) : ic = false → as0.lookup id = some cur → old = evalVal (f cur) → WriteKind f as0 id ic old
+  /-- the row exists and `old` is its stored value — an update (`ic = false`), or a create through the
+      child store over an existing parent entity (`ic = true`: the "unchanged" shortcut is off) -/
+  | update (cur : EntA) : as0.lookup id = some cur → old = evalVal (f cur) → WriteKind f as0 id ic old
 
 theorem idxWrite_spec {f : EntA → FV} {as0 : Map EntA} {m m' : Map (List Bytes)} {nullable ic : Bool}
     {tgt0 tgt : Bytes → Bool} {old id : Bytes} {e' : EntA}
@@ -84,7 +128,7 @@ theorem idxWrite_spec {f : EntA → FV} {as0 : Map EntA} {m m' : Map (List Bytes
     obtain ⟨hic, hov⟩ := hskip
     cases hk with
     | create h1 _ _ => simp [h1] at hic
-    | update cur _ hc ho =>
+    | update cur hc ho =>
       refine ⟨hS.same_value hc (ho ▸ hov), ?_, fun t ht => htgt t (hK t ht), ?_⟩
       · intro k e he hne
         by_cases hkid : k = id
@@ -104,7 +148,7 @@ theorem idxWrite_spec {f : EntA → FV} {as0 : Map EntA} {m m' : Map (List Bytes
       intro e he
       cases hk with
       | create _ hnone _ => rw [hnone] at he; cases he
-      | update cur _ hc ho => rw [hc] at he; cases he; exact ho.symm
+      | update cur hc ho => rw [hc] at he; cases he; exact ho.symm
     cases hm1 : idxDel tgt old id m with
     | error err => rw [hm1] at hres; cases hres
     | ok m1 =>
@@ -187,19 +231,19 @@ theorem bossIdx_eq (σ : Schema) (ic : Bool) (old : Olds) (id : Bytes) (s : St) 
 
 theorem ownerDel_eq (del : List Bytes → St → Bytes → Res) (prog : List Bytes) (id : Bytes) (s : St) :
     beforeDeleteA del prog id s .ownerIdx =
-      liftThings s (idxDel s.bs.contains (fieldOf s id (·.owner)) id s.things) := by
+      .ok { s with things := idxDelB s.bs.contains (fieldOf s id (·.owner)) id s.things } := by
   simp only [beforeDeleteA]
   generalize fieldOf s id (fun x => x.owner) = v
-  simp only [idxDel, thingsDel]
-  by_cases h2 : v = [] <;> by_cases h4 : s.bs.contains v = true <;> simp [h2, h4, liftThings]
+  simp only [idxDelB, thingsDel]
+  by_cases h2 : v = [] <;> by_cases h4 : s.bs.contains v = true <;> simp [h2, h4]
 
 theorem bossDel_eq (del : List Bytes → St → Bytes → Res) (prog : List Bytes) (id : Bytes) (s : St) :
     beforeDeleteA del prog id s .bossIdx =
-      liftMinions s (idxDel s.as.contains (fieldOf s id (·.boss)) id s.minions) := by
+      .ok { s with minions := idxDelB s.as.contains (fieldOf s id (·.boss)) id s.minions } := by
   simp only [beforeDeleteA]
   generalize fieldOf s id (fun x => x.boss) = v
-  simp only [idxDel, minionsDel]
-  by_cases h2 : v = [] <;> by_cases h4 : s.as.contains v = true <;> simp [h2, h4, liftMinions]
+  simp only [idxDelB, minionsDel]
+  by_cases h2 : v = [] <;> by_cases h4 : s.as.contains v = true <;> simp [h2, h4]
 
 theorem bind_ok {α β : Type} {x : Except Err α} {f : α → Except Err β} {b : β} :
     (x >>= f) = .ok b ↔ ∃ a, x = .ok a ∧ f a = .ok b := by
@@ -212,23 +256,23 @@ theorem bind_ok {α β : Type} {x : Except Err α} {f : α → Except Err β} {b
 /-- what `ProcessBeforeUpdate` captured, relative to the table before the write -/
 inductive OpKind (as0 : Map EntA) (id : Bytes) (ic : Bool) (old : Olds) : Prop
   | create : ic = true → as0.lookup id = none → old.owner = [] → old.boss = [] → old.dep = [] → OpKind as0 id ic old
-  | update (cur : EntA) : ic = false → as0.lookup id = some cur → old.owner = evalVal cur.owner →
+  | update (cur : EntA) : as0.lookup id = some cur → old.owner = evalVal cur.owner →
       old.boss = evalVal cur.boss → old.dep = evalVal cur.dep → OpKind as0 id ic old
 
 theorem OpKind.owner {as0 id ic old} (h : OpKind as0 id ic old) : WriteKind (·.owner) as0 id ic old.owner := by
   cases h with
   | create a b c d e => exact .create a b c
-  | update cur a b c d e => exact .update cur a b c
+  | update cur b c d e => exact .update cur b c
 
 theorem OpKind.boss {as0 id ic old} (h : OpKind as0 id ic old) : WriteKind (·.boss) as0 id ic old.boss := by
   cases h with
   | create a b c d e => exact .create a b d
-  | update cur a b c d e => exact .update cur a b d
+  | update cur b c d e => exact .update cur b d
 
 theorem OpKind.dep {as0 id ic old} (h : OpKind as0 id ic old) : WriteKind (·.dep) as0 id ic old.dep := by
   cases h with
   | create a b c d e => exact .create a b e
-  | update cur a b c d e => exact .update cur a b e
+  | update cur b c d e => exact .update cur b e
 
 theorem fieldOf_insert (s : St) (as0 : Map EntA) (id : Bytes) (e' : EntA) (f : EntA → FV)
     (has : s.as = as0.insert id e') : fieldOf s id f = evalVal (f e') := by
@@ -293,7 +337,7 @@ theorem depStep {σ : Schema} {s0 s s' : St} {id : Bytes} {ic : Bool} {old : Old
     obtain ⟨hic, hov⟩ := hskip
     cases hk with
     | create h1 _ _ _ _ => simp [h1] at hic
-    | update cur _ hc _ _ hd =>
+    | update cur hc _ _ hd =>
       have hcv : evalVal cur.dep = evalVal e'.dep := hd ▸ hov
       refine ⟨rfl, ?_, ?_⟩
       · intro k e he hne
@@ -411,7 +455,7 @@ theorem updateA_inv {σ : Schema} {s s' : St} {id : Bytes} {e : EntA} {mo mb md 
     (hI : Inv σ s) (h : updateA σ s id e mo mb md = .ok s') :
     Inv σ s' ∧ s'.bs = s.bs ∧ ∃ cur, s.as.lookup id = some cur ∧
       s'.as = s.as.insert id { owner := if mo then e.owner else cur.owner, boss := if mb then e.boss else cur.boss,
-                               dep := if md then e.dep else cur.dep } := by
+                               dep := if md then e.dep else cur.dep, ext := cur.ext } := by
   unfold updateA at h
   split at h
   · cases h
@@ -419,8 +463,51 @@ theorem updateA_inv {σ : Schema} {s s' : St} {id : Bytes} {e : EntA} {mo mb md 
     split at h
     · cases h
     · next cur hc =>
-      have := processAfterUpdateA_inv hI hid (.update cur rfl hc rfl rfl rfl) rfl h
+      have := processAfterUpdateA_inv hI hid (.update cur hc rfl rfl rfl) rfl h
       exact ⟨this.1, this.2.2, cur, hc, this.2.1⟩
+
+/-- Create through the child store — also over an existing parent entity, whatever its stored values -/
+theorem createC_inv {σ : Schema} {s s' : St} {id : Bytes} {e : EntA} {tag : FV}
+    (hI : Inv σ s) (h : createC σ s id e tag = .ok s') :
+    Inv σ s' ∧ s'.as = s.as.insert id { owner := e.owner, boss := e.boss, dep := e.dep, ext := some tag } ∧
+      s'.bs = s.bs ∧ id ≠ [] ∧ (∀ cur, s.as.lookup id = some cur → cur.ext = none) := by
+  unfold createC at h
+  split at h
+  · cases h
+  · next hid =>
+    simp only at h
+    split at h
+    · next hnone =>
+      have := processAfterUpdateA_inv hI hid (.create rfl hnone rfl rfl rfl) rfl h
+      exact ⟨this.1, this.2.1, this.2.2, hid, fun cur hc => by rw [hnone] at hc; cases hc⟩
+    · next cur hc =>
+      split at h
+      · cases h
+      · next hext =>
+        have := processAfterUpdateA_inv hI hid (.update cur hc rfl rfl rfl) rfl h
+        refine ⟨this.1, this.2.1, this.2.2, hid, fun cur' hc' => ?_⟩
+        rw [hc] at hc'; cases hc'
+        cases hx : cur.ext with
+        | none => rfl
+        | some v => simp [hx] at hext
+
+theorem updateC_inv {σ : Schema} {s s' : St} {id : Bytes} {e : EntA} {tag : FV} {mo mb md mt : Bool}
+    (hI : Inv σ s) (h : updateC σ s id e tag mo mb md mt = .ok s') :
+    Inv σ s' ∧ s'.bs = s.bs ∧ id ≠ [] ∧ ∃ cur curTag, s.as.lookup id = some cur ∧ cur.ext = some curTag ∧
+      s'.as = s.as.insert id { owner := if mo then e.owner else cur.owner, boss := if mb then e.boss else cur.boss,
+                               dep := if md then e.dep else cur.dep, ext := some (if mt then tag else curTag) } := by
+  unfold updateC at h
+  split at h
+  · cases h
+  · next hid =>
+    split at h
+    · cases h
+    · next cur hc =>
+      split at h
+      · cases h
+      · next curTag hx =>
+        have := processAfterUpdateA_inv hI hid (.update cur hc rfl rfl rfl) rfl h
+        exact ⟨this.1, this.2.2, hid, cur, curTag, hc, hx, this.2.1⟩
 
 theorem createB_inv {σ : Schema} {s s' : St} {id : Bytes}
     (hI : Inv σ s) (h : createB s id = .ok s') : Inv σ s' ∧ s'.as = s.as ∧ s'.bs = s.bs.insert id () := by
@@ -560,12 +647,13 @@ theorem preDelete_inv {σ : Schema} {P : Bytes → Prop} {del : List Bytes → S
     (h1 : beforeDeleteA del prog id s .ownerIdx = .ok s1) (h2 : beforeDeleteA del prog id s1 .bossIdx = .ok s2) :
     GInv σ (plus P id) s2 ∧ s2.as = s.as ∧ s2.bs = s.bs := by
   rw [ownerDel_eq] at h1
-  obtain ⟨m1, hm1, rfl⟩ := lift_ok_things h1
+  cases h1
   rw [bossDel_eq] at h2
-  obtain ⟨m2, hm2, rfl⟩ := lift_ok_minions h2
-  have a := idxDel_spec hI.things (fun e he => fieldOf_of_lookup e he) hI.thingsK hm1
-  have b := idxDel_spec (f := (·.boss)) (P := P) (as := s.as) hI.minions
-    (fun e he => fieldOf_of_lookup (s := { s with things := m1 }) e he) hI.minionsK hm2
+  cases h2
+  have a := idxDelB_spec (tgt := s.bs.contains) (v := fieldOf s id (·.owner)) hI.things
+    (fun e he => fieldOf_of_lookup e he) hI.thingsK
+  have b := idxDelB_spec (f := (·.boss)) (P := P) (as := s.as) (tgt := s.as.contains)
+    (v := fieldOf s id (·.boss)) hI.minions (fun e he => fieldOf_of_lookup e he) hI.minionsK
   exact ⟨⟨a.1, b.1, hI.ownerT, fun k e he hp => hI.bossT k e he (fun h => hp (Or.inl h)), hI.depT, hI.bossNN, hI.depNN,
     a.2, b.2, hI.nonEmpty, hI.nonEmptyB⟩, rfl, rfl⟩
 
@@ -618,13 +706,40 @@ theorem erase_inv {σ : Schema} {P : Bytes → Prop} {s : St} {id : Bytes}
     · simp [h]
     · simp only [h, if_false]; exact hI.nonEmpty
 
-/-- the shape of a successful `DeleteById` on A, whatever the constraint order -/
+/-- the shape of a successful round of A's `ProcessBeforeDelete` constraints (`passA`), whatever the
+    constraint order: the two index steps, then the cascade loop -/
+def PassOk (del : List Bytes → St → Bytes → Res) (prog : List Bytes) (id : Bytes) (s s3 : St) : Prop :=
+  ∃ s1 s2,
+    beforeDeleteA del prog id s .ownerIdx = .ok s1 ∧
+    beforeDeleteA del prog id s1 .bossIdx = .ok s2 ∧
+    cascadeOver (del (mark prog id)) (·.boss) id (mark prog id) (referrers s2 (·.boss) id) s2 = .ok s3
+
+theorem passA_ok {σ : Schema} {del : List Bytes → St → Bytes → Res} {prog : List Bytes} {s s3 : St} {id : Bytes}
+    (hF : passA σ del prog id s = .ok s3) : PassOk del prog id s s3 := by
+  unfold passA orderA at hF
+  cases hdf : σ.depFirst
+  case true =>
+    simp only [hdf, if_true, List.foldlM_cons, List.foldlM_nil, bind_ok] at hF
+    obtain ⟨s0, h0, s1, h1, s2, h2, s3', h3, h4⟩ := hF
+    have e4 : s3' = s3 := by cases h4; rfl
+    subst e4
+    simp only [beforeDeleteA] at h0; cases h0
+    exact ⟨s1, s2, h1, h2, h3⟩
+  case false =>
+    simp only [hdf, Bool.false_eq_true, if_false, List.foldlM_cons, List.foldlM_nil, bind_ok] at hF
+    obtain ⟨s1, h1, s2, h2, s3', h3, s4, h4, h5⟩ := hF
+    have e5 : s4 = s3 := by cases h5; rfl
+    subst e5
+    simp only [beforeDeleteA] at h4; cases h4
+    exact ⟨s1, s2, h1, h2, h3⟩
+
+/-- the shape of a successful `DeleteById` on A: one round (no child data) or two (child data), then the
+    entity bucket goes -/
 theorem deleteA_succ_ok {σ : Schema} {n : Nat} {prog : List Bytes} {s s' : St} {id : Bytes}
     (h : deleteA σ (n + 1) prog s id = .ok s') :
-    s.as.contains id = true ∧ ∃ s1 s2 s3,
-      beforeDeleteA (deleteA σ n) prog id s .ownerIdx = .ok s1 ∧
-      beforeDeleteA (deleteA σ n) prog id s1 .bossIdx = .ok s2 ∧
-      cascadeOver (deleteA σ n (mark prog id)) (·.boss) id (mark prog id) (referrers s2 (·.boss) id) s2 = .ok s3 ∧
+    s.as.contains id = true ∧ ∃ s0 s3,
+      ((hasExt s id = false ∧ s0 = s) ∨ (hasExt s id = true ∧ PassOk (deleteA σ n) prog id s s0)) ∧
+      PassOk (deleteA σ n) prog id s0 s3 ∧
       s3.as.contains id = true ∧
       s' = { s3 with as := s3.as.erase id, minions := s3.minions.erase id } := by
   unfold deleteA at h
@@ -632,26 +747,17 @@ theorem deleteA_succ_ok {σ : Schema} {n : Nat} {prog : List Bytes} {s s' : St} 
   · next hc =>
     refine ⟨hc, ?_⟩
     split at h
-    · next sF hF =>
+    · next s0 h0 =>
       split at h
-      · next hcF =>
-        cases h
-        unfold orderA at hF
-        cases hdf : σ.depFirst
-        case true =>
-          simp only [hdf, if_true, List.foldlM_cons, List.foldlM_nil, bind_ok] at hF
-          obtain ⟨s0, h0, s1, h1, s2, h2, s3, h3, h4⟩ := hF
-          have e4 : s3 = sF := by cases h4; rfl
-          subst e4
-          simp only [beforeDeleteA] at h0; cases h0
-          exact ⟨s1, s2, s3, h1, h2, h3, hcF, rfl⟩
-        case false =>
-          simp only [hdf, Bool.false_eq_true, if_false, List.foldlM_cons, List.foldlM_nil, bind_ok] at hF
-          obtain ⟨s1, h1, s2, h2, s3, h3, s4, h4, h5⟩ := hF
-          have e5 : s4 = sF := by cases h5; rfl
-          subst e5
-          simp only [beforeDeleteA] at h4; cases h4
-          exact ⟨s1, s2, s3, h1, h2, h3, hcF, rfl⟩
+      · next sF hF =>
+        split at h
+        · next hcF =>
+          cases h
+          refine ⟨s0, sF, ?_, passA_ok hF, hcF, rfl⟩
+          split at h0
+          · next hx => exact Or.inr ⟨hx, passA_ok h0⟩
+          · next hx => cases h0; exact Or.inl ⟨by simpa using hx, rfl⟩
+        · cases h
       · cases h
     · cases h
   · cases h
@@ -664,8 +770,57 @@ theorem mem_mark (prog : List Bytes) (id x : Bytes) : x ∈ mark prog id ↔ x =
               · rintro (rfl | h'); exact h; exact h'
   · simp
 
+/-- one round preserves the (generalised) invariant, makes `id` pending, only shrinks the table, and
+    leaves no referrer of `id` outside the pending set -/
+theorem pass_inv {σ : Schema} {del : List Bytes → St → Bytes → Res} {P : Bytes → Prop} {prog : List Bytes}
+    {s s3 : St} {id : Bytes}
+    (hdel : ∀ st x st', GInv σ (plus P id) st → del (mark prog id) st x = .ok st' →
+      GInv σ (plus P id) st' ∧ Sub st' st ∧ st'.as.lookup x = none ∧ st'.bs = st.bs)
+    (hI : GInv σ P s) (hprog : ∀ x ∈ prog, P x) (h : PassOk del prog id s s3) :
+    GInv σ (plus P id) s3 ∧ Sub s3 s ∧ s3.bs = s.bs ∧
+      (∀ x, isReferrer s3 (·.boss) id x = true → P x ∨ x = id) := by
+  obtain ⟨s1, s2, h1, h2, h3⟩ := h
+  obtain ⟨hI2, has2, hbs2⟩ := preDelete_inv hI h1 h2
+  obtain ⟨hI3, hsub3, hbs3, hdone⟩ := cascadeOver_spec hdel _ s2 s3 hI2 h3
+  refine ⟨hI3, ?_, hbs3.trans hbs2, ?_⟩
+  · intro k e he
+    have := hsub3 k e he
+    rw [has2] at this; exact this
+  · intro x hr
+    obtain ⟨e, he, hf⟩ := (isReferrer_iff s3 _ id x).1 hr
+    have hx2 : isReferrer s2 (·.boss) id x = true := (isReferrer_iff s2 _ id x).2 ⟨e, hsub3 x e he, hf⟩
+    by_cases hxs : x ∈ mark prog id
+    · rcases (mem_mark prog id x).1 hxs with rfl | hx'
+      · exact Or.inr rfl
+      · exact Or.inl (hprog x hx')
+    · have := hdone x ((mem_referrers s2 _ id x).2 hx2) hxs
+      rw [hr] at this; cases this
+
+theorem plus_plus (P : Bytes → Prop) (id k : Bytes) : plus (plus P id) id k ↔ plus P id k := by
+  unfold plus
+  constructor
+  · rintro ((h | h) | h)
+    · exact Or.inl h
+    · exact Or.inr h
+    · exact Or.inr h
+  · rintro (h | h)
+    · exact Or.inl (Or.inl h)
+    · exact Or.inr h
+
+theorem SetExact.congr {f : EntA → FV} {P Q : Bytes → Prop} {as : Map EntA} {m : Map (List Bytes)}
+    (hpq : ∀ k, P k ↔ Q k) (h : SetExact f P as m) : SetExact f Q as m := by
+  intro t k
+  rw [h t k]
+  constructor
+  · rintro ⟨e, he, h1, h2, h3⟩; exact ⟨e, he, h1, h2, fun hq => h3 ((hpq k).2 hq)⟩
+  · rintro ⟨e, he, h1, h2, h3⟩; exact ⟨e, he, h1, h2, fun hp => h3 ((hpq k).1 hp)⟩
+
+theorem GInv.congr {σ : Schema} {P Q : Bytes → Prop} {s : St} (hpq : ∀ k, P k ↔ Q k) (h : GInv σ P s) : GInv σ Q s :=
+  ⟨h.things.congr hpq, h.minions.congr hpq, h.ownerT, fun k e he hq => h.bossT k e he (fun hp => hq ((hpq k).1 hp)),
+    h.depT, h.bossNN, h.depNN, h.thingsK, h.minionsK, h.nonEmpty, h.nonEmptyB⟩
+
 /-- **DeleteById on A preserves the (generalised) invariant**, removes its argument, and only shrinks the
-    table.  `prog` (in progress) ⊆ `P` (pending). -/
+    table — with one round or two.  `prog` (in progress) ⊆ `P` (pending). -/
 theorem deleteA_inv (σ : Schema) : ∀ (n : Nat) (P : Bytes → Prop) (prog : List Bytes) (s : St) (id : Bytes) (s' : St),
     GInv σ P s → (∀ x ∈ prog, P x) → deleteA σ n prog s id = .ok s' →
     GInv σ P s' ∧ Sub s' s ∧ s'.as.lookup id = none ∧ s'.bs = s.bs := by
@@ -674,33 +829,38 @@ theorem deleteA_inv (σ : Schema) : ∀ (n : Nat) (P : Bytes → Prop) (prog : L
   | zero => intro P prog s id s' _ _ h; simp [deleteA] at h
   | succ n ih =>
     intro P prog s id s' hI hprog h
-    obtain ⟨hc, s1, s2, s3, h1, h2, h3, hc3, rfl⟩ := deleteA_succ_ok h
-    obtain ⟨hI2, has2, hbs2⟩ := preDelete_inv hI h1 h2
-    have hprog' : ∀ x ∈ mark prog id, plus P id x := by
-      intro x hx
+    obtain ⟨hc, s0, s3, h0, hp, hc3, rfl⟩ := deleteA_succ_ok h
+    have hprog' : ∀ (Q : Bytes → Prop), (∀ x ∈ prog, Q x) → ∀ x ∈ mark prog id, plus Q id x := by
+      intro Q hQ x hx
       rcases (mem_mark prog id x).1 hx with rfl | hx'
       · exact Or.inr rfl
-      · exact Or.inl (hprog x hx')
-    obtain ⟨hI3, hsub3, hbs3, hdone⟩ :=
-      cascadeOver_spec (fun st x st' a b => ih (plus P id) (mark prog id) st x st' a hprog' b) _ s2 s3 hI2 h3
-    have hno : ∀ x, isReferrer s3 (·.boss) id x = true → P x ∨ x = id := by
-      intro x hr
-      obtain ⟨e, he, hf⟩ := (isReferrer_iff s3 _ id x).1 hr
-      have hx2 : isReferrer s2 (·.boss) id x = true := (isReferrer_iff s2 _ id x).2 ⟨e, hsub3 x e he, hf⟩
-      by_cases hxs : x ∈ mark prog id
-      · rcases (mem_mark prog id x).1 hxs with rfl | hx'
-        · exact Or.inr rfl
-        · exact Or.inl (hprog x hx')
-      · have := hdone x ((mem_referrers s2 _ id x).2 hx2) hxs
-        rw [hr] at this; cases this
-    refine ⟨erase_inv hI3 hno hc3, ?_, by simp, hbs3.trans hbs2⟩
+      · exact Or.inl (hQ x hx')
+    have hdel : ∀ (Q : Bytes → Prop), (∀ x ∈ prog, Q x) → ∀ st x st', GInv σ (plus Q id) st →
+        deleteA σ n (mark prog id) st x = .ok st' →
+        GInv σ (plus Q id) st' ∧ Sub st' st ∧ st'.as.lookup x = none ∧ st'.bs = st.bs :=
+      fun Q hQ st x st' a b => ih (plus Q id) (mark prog id) st x st' a (hprog' Q hQ) b
+    -- after the round(s): the invariant with `id` pending, a sub-table, no live referrer of `id`
+    have hfin : GInv σ (plus P id) s3 ∧ Sub s3 s ∧ s3.bs = s.bs ∧
+        (∀ x, isReferrer s3 (·.boss) id x = true → P x ∨ x = id) := by
+      rcases h0 with ⟨_, rfl⟩ | ⟨_, hp0⟩
+      · exact pass_inv (hdel P hprog) hI hprog hp
+      · obtain ⟨hI0, hsub0, hbs0, _⟩ := pass_inv (hdel P hprog) hI hprog hp0
+        have hprog2 : ∀ x ∈ prog, plus P id x := fun x hx => Or.inl (hprog x hx)
+        obtain ⟨hI3, hsub3, hbs3, hno3⟩ := pass_inv (hdel (plus P id) hprog2) hI0 hprog2 hp
+        refine ⟨hI3.congr (plus_plus P id), hsub3.trans hsub0, hbs3.trans hbs0, ?_⟩
+        intro x hr
+        rcases hno3 x hr with (h1 | h1) | h1
+        · exact Or.inl h1
+        · exact Or.inr h1
+        · exact Or.inr h1
+    obtain ⟨hI3, hsub3, hbs3, hno⟩ := hfin
+    refine ⟨erase_inv hI3 hno hc3, ?_, by simp, hbs3⟩
     intro k e he
     simp only [Map.lookup_erase] at he
     by_cases hk : k = id
     · simp [hk] at he
     · simp only [hk, if_false] at he
-      have := hsub3 k e he
-      rw [has2] at this; exact this
+      exact hsub3 k e he
 
 /-! ### DeleteById on B -/
 
@@ -832,6 +992,9 @@ theorem apply_inv {σ : Schema} {s s' : St} (op : Op) (hI : Inv σ s) (h : apply
   | updateA id e mo mb md => exact (updateA_inv hI h).1
   | deleteA id => exact (deleteA_inv σ _ none' [] s id s' hI (fun _ h => by cases h) h).1
   | deleteB id => exact (deleteB_inv hI h).1
+  | createC id e tag => exact (createC_inv hI h).1
+  | updateC id e tag mo mb md mt => exact (updateC_inv hI h).1
+  | deleteC id => exact (deleteA_inv σ _ none' [] s id s' hI (fun _ h => by cases h) h).1
 
 theorem runTxFrom_inv {σ : Schema} {s0 : St} (h0 : Inv σ s0) :
     ∀ (ops : List Op) (i : Nat) (s : St), Inv σ s → Inv σ (runTxFrom σ s0 i s ops).1 := by
